@@ -4,7 +4,8 @@
 //   a   async_accept()
 //   tc  try_call(payload)          ta  try_accept()
 //   sK  request_stop() on the stop source of the party run by thread K
-// program:  <thread,thread,...> <stop|deaf>
+// program:  <thread,thread,...> <stop|deaf> [destroy]
+//   destroy: every receiver destroys (and poisons) its operation state inside the completion signal
 //   stop: the receivers' scheduler is unifex::inline_scheduler, which (like every scheduler of the
 //         library) completes schedule() with set_done when the receiver's stop token is stopped;
 //   deaf: a scheduler that never looks at the stop token.
@@ -56,6 +57,10 @@ constexpr int MAXT = 6;
 
 struct Cells {
   int completions[MAXT] = {};
+  // "destroy" mode: the receiver destroys its operation state from inside the completion signal
+  // (what spawn_detached / async_scope / a coroutine frame do) and poisons the storage
+  std::function<void()> destroy[MAXT];
+  void finish(int id) { completions[id]++; if (destroy[id]) { auto f = std::move(destroy[id]); destroy[id] = nullptr; f(); } }
 };
 
 template <typename Sched>
@@ -64,15 +69,17 @@ struct recv {
   int id;
   bool acceptor;
   inplace_stop_token tok;
-  void set_value() && noexcept { cells->completions[id]++; dsched::action("call %d value", id); }
-  void set_value(int v) && noexcept { cells->completions[id]++; dsched::action("accept %d got %d", id, v); }
+  // (members are copied to locals first: finish() may destroy the operation holding *this)
+  void set_value() && noexcept { auto* c = cells; int i = id; dsched::action("call %d value", i); c->finish(i); }
+  void set_value(int v) && noexcept { auto* c = cells; int i = id; dsched::action("accept %d got %d", i, v); c->finish(i); }
   void set_error(std::exception_ptr e) && noexcept {
-    cells->completions[id]++;
+    auto* c = cells; int i = id; bool a = acceptor;
     int code = -1;
     try { std::rethrow_exception(e); } catch (const vh::err& x) { code = x.code; } catch (...) {}
-    dsched::action("%s %d error %d", acceptor ? "accept" : "call", id, code);
+    dsched::action("%s %d error %d", a ? "accept" : "call", i, code);
+    c->finish(i);
   }
-  void set_done() && noexcept { cells->completions[id]++; dsched::action("%s %d done", acceptor ? "accept" : "call", id); }
+  void set_done() && noexcept { auto* c = cells; int i = id; bool a = acceptor; dsched::action("%s %d done", a ? "accept" : "call", i); c->finish(i); }
   friend inplace_stop_token tag_invoke(tag_t<get_stop_token>, const recv& r) noexcept { return r.tok; }
   friend Sched tag_invoke(tag_t<get_scheduler>, const recv&) noexcept { return Sched{}; }
 };
@@ -85,7 +92,7 @@ std::vector<std::string> split(const std::string& s, char c) {
 }
 
 template <typename Sched>
-std::vector<std::function<void()>> make_threads(const std::vector<std::string>& prog) {
+std::vector<std::function<void()>> make_threads(const std::vector<std::string>& prog, bool destroy_mode) {
   using pass_t = async_pass<int>;
   using R = recv<Sched>;
   using call_op_t = decltype(unifex::connect(std::declval<pass_t&>().async_call(std::declval<int&>()), std::declval<R>()));
@@ -113,11 +120,23 @@ std::vector<std::function<void()>> make_threads(const std::vector<std::string>& 
     std::snprintf(sh->nm[t][3], 16, "%s%d", prog[t] == "a" ? "a" : "c", t);
   }
   // common tail of an async party: name the locations, start, name the start() frame's flag
-  auto run_party = [](std::shared_ptr<Shared> sh, int t, auto& op, std::uint64_t word) {
+  auto run_party = [destroy_mode](std::shared_ptr<Shared> sh, int t, auto& op, std::uint64_t word) {
     dsched::name_range(&sh->pass.state_, sizeof(sh->pass.state_), "w");
     dsched::name_range(&op.state_, sizeof(op.state_), sh->nm[t][0]);
     dsched::name_range(&sh->ext[t].state_, 1, sh->nm[t][2]);
     dsched::name_value(word, sh->nm[t][3]);
+    if (destroy_mode) {
+      using op_t = std::remove_reference_t<decltype(op)>;
+      op_t* p = &op;
+      Shared* raw = sh.get();
+      raw->cells.destroy[t] = [p, t] {
+        dsched::action("destroy %d", t);
+        p->~op_t();
+        std::memset((void*)p, 0xDD, sizeof(op_t));
+      };
+      unifex::start(op);   // the operation may be gone when start() returns: touch nothing
+      return;
+    }
     unifex::start(op);
     // stop_type::start() keeps the address of its stack-local flag in sync_complete_; names are
     // resolved when the trace is rendered, so naming it now still labels the earlier accesses
@@ -192,9 +211,10 @@ int main(int argc, char** argv) {
   auto prog = split(cli.prog.at(0), ',');
   std::string hop = cli.prog.size() > 1 ? cli.prog[1] : "stop";
   const int n = (int)prog.size();
+  const bool destroy_mode = cli.prog.size() > 2 && cli.prog[2] == "destroy";
   auto make = [&]() -> std::vector<std::function<void()>> {
-    if (hop == "deaf") return make_threads<deaf_scheduler>(prog);
-    return make_threads<inline_scheduler>(prog);
+    if (hop == "deaf") return make_threads<deaf_scheduler>(prog, destroy_mode);
+    return make_threads<inline_scheduler>(prog, destroy_mode);
   };
   // direct monitor: the property evaluated on the implementation's own actions
   auto monitor = [&](const dsched::Result& r) -> std::string {
@@ -203,6 +223,11 @@ int main(int argc, char** argv) {
     std::map<int, int> got;               // payload -> times received
     std::map<int, int> trycall;           // thread -> result
     for (auto& e : r.trace) {
+      {  // destroy mode poisons a destroyed operation with 0xDD: a later access shows the poison
+        auto q = e.find(" cs");
+        if (q != std::string::npos && (e.find(" 221->") != std::string::npos || e.find(" 223->") != std::string::npos))
+          return "cancellable state_ accessed after the operation was destroyed by its receiver: " + e;
+      }
       auto p = e.find(" !");
       if (p == std::string::npos) continue;
       std::istringstream is(e.substr(p + 2));
